@@ -190,3 +190,15 @@ Theorem C07_overloads_sound : forall es as_ npos kws,
   exists a, In a as_ /\ py_bind a npos kws = true.
 Proof. exact overloads_sound. Qed.
 Print Assumptions C07_overloads_sound.
+
+(* A union on the accepted side (`g1 if c else g2`, a variable assigned different functions in
+   different branches): acceptance demands every member (`union_accepted_ok`), and then
+   WHICHEVER member the value is at run time binds every call the expected signature binds. *)
+Theorem C07_union_accepted_sound : forall e members npos kws,
+  valid_sig e = true -> (forall a, In a members -> valid_sig a = true) ->
+  (forall a, In a members -> double_fill e a = false) ->
+  names_nodup kws = true -> union_accepted_ok e members = true ->
+  py_bind e npos kws = true ->
+  forall a, In a members -> py_bind a npos kws = true.
+Proof. exact union_accepted_sound. Qed.
+Print Assumptions C07_union_accepted_sound.
